@@ -353,8 +353,16 @@ class Theory:
                 self._check_proof_item(prf, s, rpt, no_gaps, compute_only, check_level)
             res_th = seq.subproof.items[-1].th
         else:
-            # Otherwise, apply one of the proof methods. First, we
-            # obtain list of previous sequents used by the proof method:
+            # Otherwise, apply one of the proof methods. The item must sit at
+            # the position named by its id, otherwise the test on ids below
+            # says nothing about the order of items in the proof.
+            try:
+                if prf.find_item(seq.id) is not seq:
+                    raise CheckProofException("id %s does not match position in proof" % seq.id)
+            except ProofStateException:
+                raise CheckProofException("id %s does not match position in proof" % seq.id)
+
+            # Obtain list of previous sequents used by the proof method:
             prev_ths = []
             assert isinstance(seq.prevs, list), "prevs should be a list"
             for prev in seq.prevs:
